@@ -8,7 +8,7 @@ of them (plus seeded instants between items on ASGI).
 """
 import asyncio
 
-from ..asgi_peer import AsgiHttpPeer, ClientGone, InjectedSendError
+from ..asgi_peer import InjectedReceiveError, AsgiHttpPeer, ClientGone, InjectedSendError
 from ..core import Prop
 from ..httpreq import AbstractRequest
 from ..loop import SimDeadlock, SimStepLimit, SimTimeLimit, run_sim
@@ -76,7 +76,15 @@ class C06(Prop):
             "time_fracs": [t.draw(1000) / 1000.0 for _ in range(2)],
             # the user's cleanup code itself fails (after the marker): the response must still release everything
             "cleanup_raises": t.draw(8) == 0,
+            # (ASGI) the receive channel offers the request and nothing else: asking again raises (no disconnect notification)
+            "recv_raises": surface.startswith("asgi") and t.draw(10) == 0,
+            # (ASGI) the request has a body nobody reads; it arrives in this many http.request messages, the later ones after a while
+            "req_msgs": t.choice((1, 1, 1, 2, 3)), "req_gap": t.choice((0.0, 0.0, 0.3)),
         }
+        # the producer object fails when asked for its iterator (__iter__ / __aiter__ raises): the producer's own exception, before any item
+        plan["iter_fails"] = plan["iter_kind"] != "gen" and t.draw(8) == 0
+        if plan["iter_fails"]:
+            plan["boom_at"] = 0
         if surface == "wsgi-sse":
             plan["preempt"] = t.choice(PREEMPT)
             plan["cdelays"] = [t.choice((0.0, 0.0, 0.001, P / 2, P, P + 0.001)) for _ in range(8)]
@@ -95,6 +103,9 @@ class C06(Prop):
         vs = [("after", j) for j in range(0, min(n_em, 16))]
         if n_em > 16:
             vs.append(("after", n_em - 1))
+        if plan.get("recv_raises"):
+            # no disconnect can be announced through such a channel: the fault kinds left are the raising send() calls
+            return [("sendraise", j) for j in range(1, min(n_em, 10) + 1)]
         if plan["surface"].startswith("asgi"):
             t_end = ctx0.notes.get("t_end", 0.0)
             for f in plan["time_fracs"]:
@@ -199,6 +210,9 @@ class C06(Prop):
 
             class It:  # an async iterator without aclose()
                 def __aiter__(self):
+                    if plan.get("iter_fails"):
+                        ctx.probe("producer_fails_in_iter")
+                        raise boom
                     return self
 
                 async def __anext__(self):
@@ -214,8 +228,12 @@ class C06(Prop):
             return It()
 
         async def scenario(loop):
-            req = AbstractRequest("GET", "/", headers=[("accept", "text/event-stream")], body=b"x")
+            k = plan.get("req_msgs", 1)
+            req = AbstractRequest("GET" if k == 1 else "POST", "/", headers=[("accept", "text/event-stream")], body=b"x" * k)
             kw = {}
+            if k > 1:
+                ctx.probe("unread_request_body_in_several_messages")
+                kw["script"] = [{"type": "http.request", "body": b"x", "more_body": i < k - 1, "delay": plan.get("req_gap", 0.0) if i else 0.0} for i in range(k)]
             if variant is not None:
                 if variant[0] == "after":
                     if variant[1] == 0:
@@ -226,7 +244,7 @@ class C06(Prop):
                     kw["send_raise_at"] = variant[1]
                 else:
                     kw["disconnect_time"] = variant[1]
-            peer = AsgiHttpPeer(loop, ctx, ctx.sched, req, send_lats=lats, raise_after_disconnect=plan["raising"], surface=surf, **kw)
+            peer = AsgiHttpPeer(loop, ctx, ctx.sched, req, send_lats=lats, raise_after_disconnect=plan["raising"], surface=surf, recv_raises_after_script=plan.get("recv_raises", False), **kw)
             peer.on_disconnect = lambda why: st.__setitem__("n_at_disc", len(st["events"]))
             # the application can only react once receive() has handed it the disconnect
             peer.on_disconnect_delivered = lambda: (st.setdefault("n_at_deliv", len(st["events"])), st.setdefault("t_deliv", loop.time()))
@@ -279,6 +297,8 @@ class C06(Prop):
                 pass
             elif isinstance(exc, InjectedSendError) and variant is not None and variant[0] == "sendraise":
                 pass
+            elif isinstance(exc, InjectedReceiveError) and plan.get("recv_raises"):
+                pass    # the transport's own failure may leave the call (today the watcher's failure is dropped)
             else:
                 ctx.violate("C06|%s|exception|foreign-exception|%s" % (surf, type(exc).__name__), repr(exc))
         elif boom_at is not None and t_disc is None and not (variant is not None and variant[0] == "sendraise"):
@@ -306,7 +326,8 @@ class C06(Prop):
             ctx.violate("C06|%s|release|cleanup-ran-%d-times" % (surf, snap["st"]["cleanup"]), "")
         if snap["pend"]:
             ctx.violate("C06|%s|release|task-still-pending|%s" % (surf, ",".join(snap["pend_names"])), "%d tasks pending after the call returned and cleanup time elapsed" % snap["pend"])
-        errs = [e for e in loop.errors if not (plan.get("cleanup_raises") and e[1] == "CleanupError")]
+        errs = [e for e in loop.errors if not (plan.get("cleanup_raises") and e[1] == "CleanupError")
+                and not (plan.get("recv_raises") and e[1] == "InjectedReceiveError")]     # the disconnect watcher died of the injected failure; nobody awaits it
         if errs:
             ctx.violate("C06|%s|release|loop-error|%s" % (surf, errs[0][0][:40]), repr(errs[:3]))
         # 3. delivery
@@ -365,6 +386,9 @@ class C06(Prop):
 
                 class It:
                     def __iter__(self):
+                        if plan.get("iter_fails"):
+                            ctx.probe("producer_fails_in_iter")
+                            raise boom
                         return self
 
                     def __next__(self):
